@@ -632,7 +632,9 @@ class Implicit(Statement):
             return
         items = []
         for item in split_comma(line, self.item):
-            i = item.find("(")
+            # the letter-spec-list is the last bracketed group (the type
+            # specification may have a kind or length selector of its own)
+            i = item.rfind("(")
             assert i != -1 and item.endswith(")"), repr(item)
             specs = []
             for spec in split_comma(item[i + 1 : -1].strip(), self.item):
